@@ -234,6 +234,19 @@ def _ops_alphabet():
     return seqs
 
 
+def _left_held(lk, s):
+    """The lock is held and nobody who could release it is at work: its holder has ended (an exception or a return inside the
+    critical section).  A holder that is still running is inside the section, not past it."""
+    if not lk.locked():
+        return False
+    owner = getattr(lk, '_owner', None)
+    name = getattr(owner, 'name', owner)
+    for t in s.threads:
+        if t.name == name and t.state != vsched.DONE:
+            return False
+    return True
+
+
 def exec_c06(cfg, devs):
     from cflib.crazyflie import Crazyflie
     from cflib.crazyflie.mem import MemoryElement
@@ -375,7 +388,7 @@ def exec_c06(cfg, devs):
         ex.freeze()
         info['events_main'] = list(obs.events)
         rd_, wr_, lk_ = _internals(cf.mem)
-        info['lock_held'] = lk_.locked() if lk_ is not None else None
+        info['lock_held'] = _left_held(lk_, s) if lk_ is not None else None
         info['read_records'] = sorted(rd_) if rd_ is not None else None
         info['write_records'] = {k: len(v) for k, v in wr_.items() if v} if wr_ is not None else None
         info['link_lost'] = cf.link is None
